@@ -33,7 +33,10 @@ import (
 	dto "github.com/prometheus/client_model/go"
 	"github.com/sirupsen/logrus"
 
+	"github.com/couchbase/gocbcore/v10/memd"
+
 	"verifharness/sched"
+	"verifharness/simnode"
 )
 
 type Ev = sched.Ev
@@ -489,6 +492,7 @@ type Options struct {
 	Member, Total  int
 	CheckpointAuto bool
 	ReadOnly       bool // metadata.readOnly
+	RmReal         bool // rollback mitigation is the real polling object over a simulated cluster (else: the emulated replica table)
 	HookScrapes    bool // the event handler scrapes the metrics endpoint from inside every lifecycle callback
 	SkipUntil      *time.Time
 	Version        *couchbase.Version
@@ -511,30 +515,133 @@ type Rig struct {
 	CollectionIDs map[uint32]string
 	Opt           Options
 	inHook        int32
+	rmReal        couchbase.RollbackMitigation
+	rmNode        *simnode.Node
+	rmClient      couchbase.Client
+	rmCfg         *config.Dcp
+	obsMu         sync.Mutex
+	obs           map[[2]int]obsAnswer
 	RM            *couchbase.VerifRM // the replica table of rollback mitigation (real getMinSeqNo / IsOutdated / dispatch)
 }
 
 // RmSwitch turns the rollback-mitigation gate of the observers on or off (the observers read the flag of the shared
-// configuration every time an event arrives). The real rollbackMitigation object needs a connected gocbcore agent
-// (OBSERVE_SEQNO); here its table and reply handling run over the reports the schedule supplies.
+// configuration every time an event arrives).
+//
+// Two ways of feeding the gate: (RmReal = false) the replica table and reply handling of rollback_mitigation.go run over
+// the reports the schedule supplies (couchbase.VerifNewRM: real IsOutdated / getMinSeqNo / dispatch); (RmReal = true) the
+// REAL couchbase.NewRollbackMitigation polls OBSERVE_SEQNO over a real gocbcore agent against a simulated cluster
+// (one node per copy) whose answers the schedule sets, watches its cluster map and dispatches into the stream.
 func (r *Rig) RmSwitch(on bool, slots int) {
 	r.Cfg.RollbackMitigation.Interval = 5 * time.Millisecond
-	if on && r.RM == nil {
-		vbs := make([]uint16, r.W.NVB)
-		for i := range vbs {
-			vbs[i] = uint16(i)
+	dispatch := func(vb uint16, seq gocbcore.SeqNo) {
+		if st := r.Stream(); st != nil {
+			stream.VerifDispatchPersistSeqNo(st, vb, seq)
 		}
-		r.RM = couchbase.VerifNewRM(vbs, slots, func(vb uint16, seq gocbcore.SeqNo) {
-			if st := r.Stream(); st != nil {
-				stream.VerifDispatchPersistSeqNo(st, vb, seq)
-			}
-		})
+	}
+	vbs := make([]uint16, r.W.NVB)
+	for i := range vbs {
+		vbs[i] = uint16(i)
+	}
+	switch {
+	case r.Opt.RmReal && on && r.rmReal == nil:
+		if err := r.startRealRM(vbs, slots, dispatch); err != nil {
+			panic("cannot start the real rollback mitigation: " + err.Error())
+		}
+	case r.Opt.RmReal && !on && r.rmReal != nil:
+		r.rmReal.Stop()
+		r.rmReal = nil
+	case !r.Opt.RmReal && on && r.RM == nil:
+		r.RM = couchbase.VerifNewRM(vbs, slots, dispatch)
 	}
 	r.Cfg.RollbackMitigation.Disabled = !on
 }
 
+type obsAnswer struct{ uuid, seq uint64 }
+
+func (r *Rig) startRealRM(vbs []uint16, slots int, dispatch func(uint16, gocbcore.SeqNo)) error {
+	if r.rmNode == nil {
+		node := simnode.StartN("b1", len(vbs), slots, slots-1)
+		wire := simnode.NewWire(len(vbs))
+		node.Handler = wire.Handler()
+		r.obs = map[[2]int]obsAnswer{}
+		node.Observe = func(nodeIdx int, vb uint16, _ []byte) (memd.StatusCode, []byte) {
+			r.obsMu.Lock()
+			a := r.obs[[2]int{int(vb), nodeIdx}]
+			r.obsMu.Unlock()
+			out := []byte{0, byte(vb >> 8), byte(vb)}
+			for _, x := range []uint64{a.uuid, a.seq, a.seq} {
+				for s := 56; s >= 0; s -= 8 {
+					out = append(out, byte(x>>uint(s)))
+				}
+			}
+			return memd.StatusSuccess, out
+		}
+		cfg := &config.Dcp{Hosts: []string{fmt.Sprintf("http://127.0.0.1:%d", node.HTTPPort())}, Username: "user", Password: "password", BucketName: "b1"}
+		cfg.ApplyDefaults()
+		cfg.RollbackMitigation.Interval = 5 * time.Millisecond
+		cfg.RollbackMitigation.ConfigWatchInterval = 10 * time.Millisecond
+		cl := couchbase.NewClient(cfg)
+		if err := cl.Connect(); err != nil {
+			return err
+		}
+		if err := cl.DcpConnect(true, false); err != nil {
+			return err
+		}
+		r.rmNode, r.rmClient, r.rmCfg = node, cl, cfg
+	}
+	r.rmReal = couchbase.NewRollbackMitigation(r.rmClient, r.rmCfg, vbs, func(p *models.PersistSeqNo) { dispatch(p.VbID, p.SeqNo) })
+	r.rmReal.Start()
+	return nil
+}
+
+// RmReport: copy `slot` of vb answers OBSERVE_SEQNO with (uuid, seq) from now on / is fed to the emulated table.
+func (r *Rig) RmReport(vb, slot int, uuid, seq uint64) bool {
+	if r.Opt.RmReal {
+		if r.rmNode == nil {
+			return false
+		}
+		r.obsMu.Lock()
+		r.obs[[2]int{vb, slot}] = obsAnswer{uuid, seq}
+		r.obsMu.Unlock()
+		time.Sleep(4 * r.rmCfg.RollbackMitigation.Interval) // a few polling rounds: the change is normally seen before the next one is made
+		return true
+	}
+	if r.RM == nil {
+		return false
+	}
+	r.RM.Report(uint16(vb), slot, gocbcore.VbUUID(uuid), gocbcore.SeqNo(seq))
+	return true
+}
+
+// RmAbsent: the cluster map stops listing copy `slot` of vb.
+func (r *Rig) RmAbsent(vb, slot int) bool {
+	if r.Opt.RmReal {
+		if r.rmNode == nil {
+			return false
+		}
+		r.rmNode.Unlist(vb, slot)
+		time.Sleep(3*r.rmCfg.RollbackMitigation.ConfigWatchInterval + 4*r.rmCfg.RollbackMitigation.Interval)
+		return true
+	}
+	if r.RM == nil {
+		return false
+	}
+	r.RM.Absent(uint16(vb), slot)
+	return true
+}
+
 // Reap lets the callbacks that still wait at the gate of a discarded process return.
 func (r *Rig) Reap() {
+	if r.rmReal != nil {
+		rm := r.rmReal
+		r.rmReal = nil
+		go rm.Stop()
+	}
+	if r.rmClient != nil {
+		cl := r.rmClient
+		r.rmClient = nil
+		go func() { time.Sleep(200 * time.Millisecond); cl.DcpClose(); cl.Close() }()
+	}
 	r.Client.mu.Lock()
 	defer r.Client.mu.Unlock()
 	for _, ob := range r.Client.Obs {
